@@ -1011,6 +1011,16 @@ Proof.
 Qed.
 
 Ltac disc := match goal with H : _ = Ok _ |- _ => first [discriminate H | cbv beta iota zeta in H; discriminate H | simpl in H; discriminate H] end.
+Lemma soft_closures_inv atom : forall cl top path top' path', soft_closures atom cl top path = (top', path') ->
+  Forall ok_item top -> Forall ok_entry path -> Forall ok_item top' /\ Forall ok_entry path'.
+Proof.
+  induction cl as [|c r IH]; intros top path top' path' E T P; simpl in E.
+  - injection E as E1 E2. subst. auto.
+  - destruct (remove_kitem (atom, c, 1, None) top) eqn:R; [|eapply IH; eauto].
+    eapply IH; eauto using remove_kitem_inv.
+    apply Forall_app. split; [exact P|]. constructor; [left; reflexivity | constructor].
+Qed.
+
 Ltac ok_lit := first [left; reflexivity | right; reflexivity].
 Ltac ok_items :=
   repeat match goal with
@@ -1034,9 +1044,10 @@ Proof.
     injection E as E1 E2. subst. destruct (do_closures_inv _ _ _ _ _ _ D T P) as [T1 P1].
     ok_items. clear. induction fs; simpl; constructor; auto. simpl. left. reflexivity.
   - destruct fs as [|n1 [|n2 [|n3 fs]]].
-    + destruct (nonempty cl && negb (inpyr pyr atom)).
-      * eapply backtrack_inv; eauto.
-      * injection E as E1 E2. subst. ok_items.
+    + destruct cl as [|c0 cl0]; [injection E as E1 E2; subst; ok_items|].
+      destruct (inpyr pyr atom); [|eapply backtrack_inv; eauto].
+      destruct (soft_closures atom (c0 :: cl0) top path) as [top1 path1] eqn:SC. injection E as E1 E2. subst.
+      destruct (soft_closures_inv _ _ _ _ _ _ SC T P). ok_items.
     + destruct (indb db n1).
       * destruct (inpyr pyr atom); [injection E as E1 E2; subst; ok_items | eapply backtrack_inv; eauto].
       * destruct (inpyr pyr atom); [injection E as E1 E2; subst; ok_items|].
